@@ -64,8 +64,8 @@ Theorem candidates_exact fs getenv word for_dir sep pfx entries :
   fs [c_dot] = Some entries ->
   exists l, complete_path fs getenv word for_dir = COk l /\
     sorted_comps l = true /\
-    Permutation l (map (comp_of [] sep (is_env_prefix word))
-                       (filter (fun e => (negb for_dir || snd e) && starts_with (fst e) pfx) entries)).
+    Permutation l (map (fun e => comp_of [] sep (is_env_prefix word) (fst e, entry_is_dir e))
+                       (filter (fun e => (negb for_dir || entry_is_dir e) && starts_with (fst e) pfx) entries)).
 Proof.
   intros Ht Hs Hp Hh Hd Hfs. unfold complete_path. rewrite Ht.
   assert (Esp : split_pathname pfx = ([], pfx)).
@@ -77,3 +77,27 @@ Proof.
   rewrite Eenv, Esp. cbn [is_empty]. rewrite Hfs.
   eexists. split; [reflexivity|]. split; [apply sort_comps_sorted|apply sort_comps_perm].
 Qed.
+
+(** an entry that is a directory THROUGH a symbolic link is offered like a directory, also to the
+    cd completer, with the directory suffix *)
+Corollary dir_entry_offered fs getenv word for_dir sep pfx entries e :
+  last_token (parse_line word) = (sep, pfx) ->
+  has_char c_slash pfx = false -> has_char c_pipe pfx = false ->
+  needs_expand_home pfx = false -> starts_with_c c_dollar pfx = false ->
+  fs [c_dot] = Some entries ->
+  In e entries -> entry_is_dir e = true -> starts_with (fst e) pfx = true ->
+  exists l c, complete_path fs getenv word for_dir = COk l /\ In c l /\ cp_dir c = true /\
+              c = comp_of [] sep (is_env_prefix word) (fst e, true).
+Proof.
+  intros Ht Hs Hp Hh Hd Hfs Hin Hdir Hpre.
+  destruct (candidates_exact fs getenv word for_dir sep pfx entries Ht Hs Hp Hh Hd Hfs) as (l & E & _ & P).
+  exists l, (comp_of [] sep (is_env_prefix word) (fst e, true)). split; [exact E|]. split.
+  - apply (Permutation_in _ (Permutation_sym P)).
+    rewrite <- Hdir. apply (in_map (fun e0 => comp_of [] sep (is_env_prefix word) (fst e0, entry_is_dir e0))).
+    apply filter_In. split; [exact Hin|]. now rewrite Hdir, Hpre, orb_true_r.
+  - split; [|reflexivity]. unfold comp_of. cbn [cp_dir]. reflexivity.
+Qed.
+
+Example link_to_dir_is_dir : entry_is_dir ([108], ELinkDir) = true /\ entry_is_dir ([108], ELinkFile) = false /\
+                             entry_is_dir ([108], ELinkDangling) = false.
+Proof. repeat split. Qed.
